@@ -75,18 +75,16 @@ static void run_op(DocWorld &w, const Op &op)
 	if (ds.as_format) { for (char ch : tailtext) { full += ch; if (ch == '%') full += '%'; } }
 	else full += tailtext;
 	bool valid = (ds.path.suffix == 0 || ds.path.suffix == 3) && (ds.tail == 0 || ds.tail == 1);
-	int rc;
+	int rc, e_ = 0;
 	{
-	    LibCall lc(c, &op);
-	    rc = ds.as_format ? vnaproperty_set(rootp, full.c_str()) : vnaproperty_set(rootp, "%s", full.c_str());
-	    lc.done();
-	    c.log(" -> %d errno=%s", rc, rc ? errno_name(lc.saved_errno) : "-");
+	    LIB_RETRY(c, &op, "vnaproperty_set", e_, rc != 0, rc = ds.as_format ? vnaproperty_set(rootp, full.c_str()) : vnaproperty_set(rootp, "%s", full.c_str()));
+	    c.log(" -> %d errno=%s", rc, rc ? errno_name(e_) : "-");
 	    if (c.violated) return;
 	    if (valid) {
-		if (rc != 0) { c.violate("model", "set:rc", strf("valid set %s failed, errno %s", Json(full).str().c_str(), errno_name(lc.saved_errno))); return; }
+		if (rc != 0) { c.violate("model", "set:rc", strf("valid set %s failed, errno %s", Json(full).str().c_str(), errno_name(e_))); return; }
 	    } else {
 		if (rc != -1) { c.violate("model", "set:rc", strf("malformed set %s returned %d", Json(full).str().c_str(), rc)); return; }
-		if (lc.saved_errno != EINVAL) { c.violate("model", "set:errno", strf("malformed set %s: errno %s, expected EINVAL", Json(full).str().c_str(), errno_name(lc.saved_errno))); return; }
+		if (e_ != EINVAL) { c.violate("model", "set:errno", strf("malformed set %s: errno %s, expected EINVAL", Json(full).str().c_str(), errno_name(e_))); return; }
 	    }
 	}
 	if (valid) {
@@ -102,16 +100,15 @@ static void run_op(DocWorld &w, const Op &op)
 	bool valid = ds.tail != 3;
 	std::string full = (ds.as_format ? esc : desc) + (ds.tail == 3 ? ds.junk : "");
 	vnaproperty_t **anchor;
+	int e_ = 0;
 	{
-	    LibCall lc(c, &op);
-	    anchor = ds.as_format ? vnaproperty_set_subtree(rootp, full.c_str()) : vnaproperty_set_subtree(rootp, "%s", full.c_str());
-	    lc.done();
-	    c.log(" -> %s errno=%s", anchor ? "anchor" : "NULL", anchor ? "-" : errno_name(lc.saved_errno));
+	    LIB_RETRY(c, &op, "vnaproperty_set_subtree", e_, anchor == nullptr, anchor = ds.as_format ? vnaproperty_set_subtree(rootp, full.c_str()) : vnaproperty_set_subtree(rootp, "%s", full.c_str()));
+	    c.log(" -> %s errno=%s", anchor ? "anchor" : "NULL", anchor ? "-" : errno_name(e_));
 	    if (c.violated) return;
-	    if (valid && !anchor) { c.violate("model", "setsub:rc", strf("set_subtree %s failed, errno %s", Json(full).str().c_str(), errno_name(lc.saved_errno))); return; }
+	    if (valid && !anchor) { c.violate("model", "setsub:rc", strf("set_subtree %s failed, errno %s", Json(full).str().c_str(), errno_name(e_))); return; }
 	    if (!valid) {
 		if (anchor) { c.violate("model", "setsub:rc", strf("set_subtree with trailing tokens %s succeeded", Json(full).str().c_str())); return; }
-		if (lc.saved_errno != EINVAL) { c.violate("model", "setsub:errno", strf("set_subtree %s: errno %s, expected EINVAL", Json(full).str().c_str(), errno_name(lc.saved_errno))); return; }
+		if (e_ != EINVAL) { c.violate("model", "setsub:errno", strf("set_subtree %s: errno %s, expected EINVAL", Json(full).str().c_str(), errno_name(e_))); return; }
 	    }
 	}
 	if (valid) {
@@ -146,18 +143,16 @@ static void run_op(DocWorld &w, const Op &op)
 		else r.coll->vals.erase(r.coll->vals.begin() + r.index);
 	    } else r.node->clear();
 	}
-	int rc;
+	int rc, e_ = 0;
 	{
-	    LibCall lc(c, &op);
-	    rc = ds.as_format ? vnaproperty_delete(rootp, full.c_str()) : vnaproperty_delete(rootp, "%s", full.c_str());
-	    lc.done();
-	    c.log(" -> %d errno=%s", rc, rc ? errno_name(lc.saved_errno) : "-");
+	    LIB_RETRY(c, &op, "vnaproperty_delete", e_, rc != 0, rc = ds.as_format ? vnaproperty_delete(rootp, full.c_str()) : vnaproperty_delete(rootp, "%s", full.c_str()));
+	    c.log(" -> %d errno=%s", rc, rc ? errno_name(e_) : "-");
 	    if (c.violated) return;
-	    if (!want_err && rc != 0) { c.violate("model", "del:rc", strf("delete %s failed (errno %s), model expects success", Json(full).str().c_str(), errno_name(lc.saved_errno))); return; }
+	    if (!want_err && rc != 0) { c.violate("model", "del:rc", strf("delete %s failed (errno %s), model expects success", Json(full).str().c_str(), errno_name(e_))); return; }
 	    if (want_err) {
 		if (rc != -1) { c.violate("model", "del:rc", strf("delete %s returned %d, model expects failure %s", Json(full).str().c_str(), rc, errno_name(want_err))); return; }
 		DResult rr; rr.err = want_err; rr.err_alt = want_alt;
-		if (!errno_ok(lc.saved_errno, rr)) { c.violate("model", "del:errno", strf("delete %s: errno %s, expected %s", Json(full).str().c_str(), errno_name(lc.saved_errno), errno_name(want_err))); return; }
+		if (!errno_ok(e_, rr)) { c.violate("model", "del:errno", strf("delete %s: errno %s, expected %s", Json(full).str().c_str(), errno_name(e_), errno_name(want_err))); return; }
 		c.count("probe.del_refused");
 	    }
 	}
@@ -172,42 +167,41 @@ static void run_op(DocWorld &w, const Op &op)
 	if (!want_err && ds.tail == 3) { want_err = EINVAL; }
 	const DNode *n = want_err ? nullptr : r.node;
 	const vnaproperty_t *root = *rootp;
-	LibCall lc(c, &op);
+	int e_ = 0;
 	if (op.k == "get") {
-	    const char *v = ds.as_format ? vnaproperty_get(root, full.c_str()) : vnaproperty_get(root, "%s", full.c_str());
-	    std::string got = v ? v : "";
-	    lc.done();
+	    const char *v = nullptr;
+	    std::string got;
+	    LIB_RETRY(c, &op, "vnaproperty_get", e_, v == nullptr, v = ds.as_format ? vnaproperty_get(root, full.c_str()) : vnaproperty_get(root, "%s", full.c_str()); got = v ? v : "");
 	    c.log(" -> %s", v ? Json(got).str().c_str() : "NULL");
 	    if (c.violated) return;
 	    if (n && n->k == 1) {
 		if (!v || got != n->s) c.violate("model", "get:value", strf("get %s returned %s, model %s", Json(full).str().c_str(), v ? Json(got).str().c_str() : "NULL", Json(n->s).str().c_str()));
 	    } else {
 		if (v) c.violate("model", "get:value", strf("get %s returned %s, model expects NULL", Json(full).str().c_str(), Json(got).str().c_str()));
-		else if (want_err) { DResult rr = r; rr.err = want_err; if (!errno_ok(lc.saved_errno, rr)) c.violate("model", "get:errno", strf("get %s: errno %s, expected %s", Json(full).str().c_str(), errno_name(lc.saved_errno), errno_name(want_err))); }
-		else if (n && n->k >= 2 && lc.saved_errno != EINVAL) c.violate("model", "get:errno", strf("get %s on a non-scalar: errno %s, expected EINVAL", Json(full).str().c_str(), errno_name(lc.saved_errno)));
+		else if (want_err) { DResult rr = r; rr.err = want_err; if (!errno_ok(e_, rr)) c.violate("model", "get:errno", strf("get %s: errno %s, expected %s", Json(full).str().c_str(), errno_name(e_), errno_name(want_err))); }
+		else if (n && n->k >= 2 && e_ != EINVAL) c.violate("model", "get:errno", strf("get %s on a non-scalar: errno %s, expected EINVAL", Json(full).str().c_str(), errno_name(e_)));
 	    }
 	} else if (op.k == "type") {
-	    int t = ds.as_format ? vnaproperty_type(root, full.c_str()) : vnaproperty_type(root, "%s", full.c_str());
-	    lc.done();
+	    int t = -1;
+	    LIB_RETRY(c, &op, "vnaproperty_type", e_, t == -1, t = ds.as_format ? vnaproperty_type(root, full.c_str()) : vnaproperty_type(root, "%s", full.c_str()));
 	    c.log(" -> %d", t);
 	    if (c.violated) return;
 	    int want = !n ? -1 : n->k == 1 ? 's' : n->k == 2 ? 'm' : n->k == 3 ? 'l' : -1;
 	    if (t != want) c.violate("model", "type:value", strf("type %s returned %d, model %d", Json(full).str().c_str(), t, want));
-	    else if (want_err) { DResult rr = r; rr.err = want_err; if (!errno_ok(lc.saved_errno, rr)) c.violate("model", "type:errno", strf("type %s: errno %s, expected %s", Json(full).str().c_str(), errno_name(lc.saved_errno), errno_name(want_err))); }
+	    else if (want_err) { DResult rr = r; rr.err = want_err; if (!errno_ok(e_, rr)) c.violate("model", "type:errno", strf("type %s: errno %s, expected %s", Json(full).str().c_str(), errno_name(e_), errno_name(want_err))); }
 	} else if (op.k == "count") {
-	    int t = ds.as_format ? vnaproperty_count(root, full.c_str()) : vnaproperty_count(root, "%s", full.c_str());
-	    lc.done();
+	    int t = -1;
+	    LIB_RETRY(c, &op, "vnaproperty_count", e_, t == -1, t = ds.as_format ? vnaproperty_count(root, full.c_str()) : vnaproperty_count(root, "%s", full.c_str()));
 	    c.log(" -> %d", t);
 	    if (c.violated) return;
 	    int want = (n && n->k >= 2) ? (int)n->vals.size() : -1;
 	    if (t != want) c.violate("model", "count:value", strf("count %s returned %d, model %d", Json(full).str().c_str(), t, want));
-	    else if (want_err) { DResult rr = r; rr.err = want_err; if (!errno_ok(lc.saved_errno, rr)) c.violate("model", "count:errno", strf("count %s: errno %s, expected %s", Json(full).str().c_str(), errno_name(lc.saved_errno), errno_name(want_err))); }
-	    else if (n && n->k == 1 && lc.saved_errno != EINVAL) c.violate("model", "count:errno", strf("count %s on a scalar: errno %s, expected EINVAL", Json(full).str().c_str(), errno_name(lc.saved_errno)));
+	    else if (want_err) { DResult rr = r; rr.err = want_err; if (!errno_ok(e_, rr)) c.violate("model", "count:errno", strf("count %s: errno %s, expected %s", Json(full).str().c_str(), errno_name(e_), errno_name(want_err))); }
+	    else if (n && n->k == 1 && e_ != EINVAL) c.violate("model", "count:errno", strf("count %s on a scalar: errno %s, expected EINVAL", Json(full).str().c_str(), errno_name(e_)));
 	} else if (op.k == "keys") {
-	    const char **kv = ds.as_format ? vnaproperty_keys(root, full.c_str()) : vnaproperty_keys(root, "%s", full.c_str());
+	    const char **kv = nullptr;
 	    std::vector<std::string> got;
-	    if (kv) for (const char **p = kv; *p; ++p) got.push_back(*p);
-	    lc.done();
+	    LIB_RETRY(c, &op, "vnaproperty_keys", e_, kv == nullptr, kv = ds.as_format ? vnaproperty_keys(root, full.c_str()) : vnaproperty_keys(root, "%s", full.c_str()); got.clear(); if (kv) for (const char **p = kv; *p; ++p) got.push_back(*p));
 	    free((void *)kv);
 	    c.log(" -> %s n=%zu", kv ? "vector" : "NULL", got.size());
 	    if (c.violated) return;
@@ -215,12 +209,13 @@ static void run_op(DocWorld &w, const Op &op)
 		if (!kv || got != n->keys) c.violate("model", "keys:value", strf("keys %s: wrong key vector (%zu keys, model %zu)", Json(full).str().c_str(), got.size(), n->keys.size()));
 	    } else {
 		if (kv) c.violate("model", "keys:value", strf("keys %s returned a vector, model expects NULL", Json(full).str().c_str()));
-		else if (want_err) { DResult rr = r; rr.err = want_err; if (!errno_ok(lc.saved_errno, rr)) c.violate("model", "keys:errno", strf("keys %s: errno %s, expected %s", Json(full).str().c_str(), errno_name(lc.saved_errno), errno_name(want_err))); }
-		else if (n && n->k != 0 && lc.saved_errno != EINVAL) c.violate("model", "keys:errno", strf("keys %s on a non-map: errno %s, expected EINVAL", Json(full).str().c_str(), errno_name(lc.saved_errno)));
+		else if (want_err) { DResult rr = r; rr.err = want_err; if (!errno_ok(e_, rr)) c.violate("model", "keys:errno", strf("keys %s: errno %s, expected %s", Json(full).str().c_str(), errno_name(e_), errno_name(want_err))); }
+		else if (n && n->k != 0 && e_ != EINVAL) c.violate("model", "keys:errno", strf("keys %s on a non-map: errno %s, expected EINVAL", Json(full).str().c_str(), errno_name(e_)));
 	    }
 	} else {
-	    vnaproperty_t *sub = ds.as_format ? vnaproperty_get_subtree(root, full.c_str()) : vnaproperty_get_subtree(root, "%s", full.c_str());
-	    lc.done();
+	    vnaproperty_t *sub = nullptr;
+	    // (a NULL result is also the legitimate answer for a null node: then errno stays 0 and nothing fired)
+	    LIB_RETRY(c, &op, "vnaproperty_get_subtree", e_, sub == nullptr, errno = 0; sub = ds.as_format ? vnaproperty_get_subtree(root, full.c_str()) : vnaproperty_get_subtree(root, "%s", full.c_str()));
 	    c.log(" -> %s", sub ? "node" : "NULL");
 	    if (c.violated) return;
 	    if (n) {
@@ -229,7 +224,7 @@ static void run_op(DocWorld &w, const Op &op)
 		if (!c.violated && real != want) c.violate("model", "getsub:value", strf("get_subtree %s holds %s, model %s", Json(full).str().c_str(), real.c_str(), want.c_str()));
 	    } else {
 		if (sub) c.violate("model", "getsub:value", strf("get_subtree %s returned a node, model expects failure", Json(full).str().c_str()));
-		else { DResult rr = r; rr.err = want_err; if (!errno_ok(lc.saved_errno, rr)) c.violate("model", "getsub:errno", strf("get_subtree %s: errno %s, expected %s", Json(full).str().c_str(), errno_name(lc.saved_errno), errno_name(want_err))); }
+		else { DResult rr = r; rr.err = want_err; if (!errno_ok(e_, rr)) c.violate("model", "getsub:errno", strf("get_subtree %s: errno %s, expected %s", Json(full).str().c_str(), errno_name(e_), errno_name(want_err))); }
 	    }
 	}
 	if (want_err) c.count("probe.query_refused");
@@ -252,13 +247,10 @@ static void run_op(DocWorld &w, const Op &op)
 	    DResult r = dmodel_descend(m, ds.path, true);
 	    mdst = r.node;
 	}
-	int rc;
-	{
-	    LibCall lc(c, &op);
-	    rc = vnaproperty_copy(anchor, w.roots[si]);
-	    lc.done();
-	    c.log(" -> %d", rc);
-	}
+	int rc, e_ = 0;
+	LIB_RETRY(c, &op, "vnaproperty_copy", e_, rc != 0, rc = vnaproperty_copy(anchor, w.roots[si]));
+	c.log(" -> %d", rc);
+	(void)e_;
 	if (c.violated) return;
 	if (rc != 0) { c.violate("model", "copy:rc", "vnaproperty_copy failed"); return; }
 	*mdst = w.model[si];
@@ -271,7 +263,7 @@ static void run_op(DocWorld &w, const Op &op)
 	const std::string &key = op.S(0);
 	if (key.empty()) return;
 	char *q;
-	{ LibCall lc(c, &op); q = vnaproperty_quote_key(key.c_str()); lc.done(); }
+	{ int e_ = 0; LIB_RETRY(c, &op, "vnaproperty_quote_key", e_, q == nullptr, q = vnaproperty_quote_key(key.c_str())); (void)e_; }
 	if (c.violated) return;
 	if (!q) { c.violate("model", "quote:rc", "quote_key returned NULL"); return; }
 	std::string qs = q;
@@ -314,8 +306,9 @@ static void run_op(DocWorld &w, const Op &op)
     if (op.k == "export") {
 	std::string name = op.S(0).empty() ? "p.yaml" : op.S(0);
 	FILE *fp;
-	{
-	    LibCall lc(c, &op);	// stream faults of this op apply to the stream opened here
+	int pend_err = 0; bool pend_alloc = false;
+	for (int attempt = 0; attempt < 2 && !c.violated; ++attempt) {
+	    LibCall lc(c, attempt == 0 ? &op : nullptr);	// stream faults of this op apply to the stream opened here
 	    fp = simfs_open(name.c_str(), "w");
 	    int rc = -1;
 	    bool cb = op.I(1) != 0;
@@ -325,25 +318,30 @@ static void run_op(DocWorld &w, const Op &op)
 	    int crc = fp ? fclose(fp) : -1;
 	    g_sim.in_lib = in;
 	    errno = e;
-	    bool fired = g_sim.fired_vna || g_sim.fired_yaml || g_sim.fired_write_err || g_sim.fired_close_err || g_sim.fired_open;
+	    bool fired = sim_fault_fired(), alloc_fired = sim_alloc_fault_fired() && !(g_sim.fired_write_err || g_sim.fired_close_err || g_sim.fired_open);
 	    size_t ncb = g_sim.callbacks.size();
+	    std::string cbmsg = ncb ? g_sim.callbacks[0].msg : "";
 	    lc.done();
-	    c.log(" export %s -> %d close=%d fired=%d size=%zu", name.c_str(), rc, crc, (int)fired, simfs()[name].size());
 	    if (c.violated) return;
-	    if (!fired) {
-		if (rc != 0 || crc != 0) { c.violate("model", "export:rc", strf("fault-free export failed (rc %d, errno %s)", rc, errno_name(lc.saved_errno))); return; }
-		if (ncb) { c.violate("model", "export:callback", "callback on a successful export: " + g_sim.callbacks[0].msg); return; }
-		w.files[name] = m;
-		w.files_ok.insert(name);
-		c.count("probe.export_ok");
-	    } else {
+	    if (fired && (rc != 0 || crc != 0)) {
+		// failed because of the injected fault: reported, and repeatable once the fault is gone
 		c.count("probe.export_faulted");
 		w.files_ok.erase(name);
-		// an export that reports success although a fault fired must still have written the
-		// whole tree (the call "either still succeeds or fails")
-		if (rc == 0 && crc == 0) { c.count("probe.export_ok_despite_fault"); w.files[name] = m; w.files_ok.insert(name); }
 		if (rc != 0 && cb && ncb == 0) { c.violate("model", "export:callback", "failed export reported nothing through the callback"); return; }
+		fault_failed(c, "vnaproperty_export_yaml_to_file", lc.saved_errno, alloc_fired && rc != 0);
+		pend_err = lc.saved_errno; pend_alloc = alloc_fired && rc != 0;
+		continue;
 	    }
+	    if (attempt == 1 && rc == 0 && crc == 0) fault_recovered(c, "vnaproperty_export_yaml_to_file", pend_err, pend_alloc);
+	    c.log(" export %s -> %d close=%d size=%zu", name.c_str(), rc, crc, simfs()[name].size());
+	    if (rc != 0 || crc != 0) { c.violate("model", "export:rc", strf("fault-free export failed (rc %d, errno %s)", rc, errno_name(lc.saved_errno))); return; }
+	    if (ncb) { c.violate("model", "export:callback", "callback on a successful export: " + cbmsg); return; }
+	    // (also when a fault fired without making the call fail: success must mean a whole file)
+	    if (fired) c.count("probe.export_ok_despite_fault");
+	    w.files[name] = m;
+	    w.files_ok.insert(name);
+	    c.count("probe.export_ok");
+	    break;
 	}
 	compare_root(w, ri, op, "export");
 	return;
@@ -353,12 +351,14 @@ static void run_op(DocWorld &w, const Op &op)
 	if (!simfs().count(name)) return;
 	bool cb = op.I(1) != 0;
 	bool into_empty = w.roots[ri] == nullptr;
-	int rc;
-	bool fired, storage_fault = false;
-	size_t ncb;
+	int rc = -1;
+	bool fired = false, storage_fault = false;
+	size_t ncb = 0;
 	int cat0 = -1;
-	{
-	    LibCall lc(c, &op);
+	int pend_err = 0; bool pend_alloc = false;
+	for (int attempt = 0; attempt < 2 && !c.violated; ++attempt) {
+	    LibCall lc(c, attempt == 0 ? &op : nullptr);
+	    if (attempt > 0) vnaproperty_delete(rootp, ".");	// start the repeated import from the same (empty or not) state: empty
 	    if (op.k == "import_f") {
 		FILE *fp = simfs_open(name.c_str(), "r");
 		rc = -1;
@@ -374,18 +374,31 @@ static void run_op(DocWorld &w, const Op &op)
 		std::string text = simfs()[name];
 		rc = vnaproperty_import_yaml_from_string(rootp, text.c_str(), cb ? sim_error_fn : nullptr, nullptr);
 	    }
-	    fired = g_sim.fired_vna || g_sim.fired_yaml || g_sim.fired_read_eio || g_sim.fired_read_eof || g_sim.fired_open;
+	    fired = sim_fault_fired();
 	    storage_fault = g_sim.fired_read_eio || g_sim.fired_read_eof || g_sim.fired_open;
+	    bool alloc_fired = sim_alloc_fault_fired();
 	    ncb = g_sim.callbacks.size();
+	    std::string cbmsg = ncb ? g_sim.callbacks[0].msg : "";
 	    if (ncb) cat0 = g_sim.callbacks[0].category;
 	    lc.done();
-	    c.log(" %s %s -> %d errno=%s fired=%d", op.k.c_str(), name.c_str(), rc, rc ? errno_name(lc.saved_errno) : "-", (int)fired);
 	    if (c.violated) return;
-	    if (!fired && w.files_ok.count(name)) {
-		if (rc != 0) { c.violate("model", "import:rc", strf("import of a file written by a successful export failed (errno %s%s%s)", errno_name(lc.saved_errno), ncb ? ": " : "", ncb ? g_sim.callbacks[0].msg.c_str() : "")); return; }
-		if (ncb && cat0 != VNAERR_WARNING) { c.violate("model", "import:callback", "callback on a successful import: " + g_sim.callbacks[0].msg); return; }
+	    // an import that failed because of an allocation fault is repeated once the fault is gone
+	    // (into an emptied root, and only when the root was empty to begin with)
+	    if (attempt == 0 && fired && !storage_fault && rc != 0 && into_empty) {
+		c.count("probe.import_faulted");
+		fault_failed(c, "vnaproperty_import_yaml", lc.saved_errno, alloc_fired);
+		pend_err = lc.saved_errno; pend_alloc = alloc_fired;
+		continue;
 	    }
+	    if (attempt == 1 && rc == 0) fault_recovered(c, "vnaproperty_import_yaml", pend_err, pend_alloc);
+	    c.log(" %s %s -> %d errno=%s", op.k.c_str(), name.c_str(), rc, rc ? errno_name(lc.saved_errno) : "-");
+	    if (!fired && w.files_ok.count(name)) {
+		if (rc != 0) { c.violate("model", "import:rc", strf("import of a file written by a successful export failed (errno %s%s%s)", errno_name(lc.saved_errno), ncb ? ": " : "", cbmsg.c_str())); return; }
+		if (ncb && cat0 != VNAERR_WARNING) { c.violate("model", "import:callback", "callback on a successful import: " + cbmsg); return; }
+	    }
+	    break;
 	}
+	if (c.violated) return;
 	// a stream that ends early or errors hands the library different (possibly still valid) text;
 	// an allocation failure does not: there a call that reports success must have the full effect
 	if ((!fired || (rc == 0 && !storage_fault)) && w.files_ok.count(name) && into_empty) {
